@@ -148,4 +148,33 @@ theorem bhcompL_total (single : Bool) (b : Nat) (integer fraction : Bytes) (expo
   · rename_i hse; exact largeAtofL_total _ _ _ q2 (q3 hm) hlen hse h2
   · rename_i hse; exact smallAtofL_total _ _ _ b (by omega) h1
 
+/-- under the hypotheses of `bhcomp_eq` the big-integer mantissa is not zero -/
+theorem bhMantissa_ne_zero (c : FC) (hmax : 2 ≤ c.maxDigits) (integer fraction : Bytes)
+    (hpos : 0 < natOfDigits (integer ++ fraction))
+    (hz : c.maxDigits - 1 < (SJ.Proofs.LexBh.sigDigits integer fraction).length →
+      0 < natOfDigits ((SJ.Proofs.LexBh.sigDigits integer fraction).drop (c.maxDigits - 1))) :
+    bhMantissa c integer fraction ≠ 0 := by
+  unfold bhMantissa
+  by_cases hint : integer = []
+  · subst hint
+    simp only [List.length_nil, beq_self_eq_true, if_true]
+    have hsig : SJ.Proofs.LexBh.sigDigits [] fraction = fraction.drop (fraction.takeWhile (· == 0x30)).length := by
+      unfold SJ.Proofs.LexBh.sigDigits; simp
+    rw [hsig] at hz
+    rw [SJ.Proofs.LexBh.parseMantissa_eq c hmax [] _ (by simpa using hz)]
+    split
+    · omega
+    · simp only [List.nil_append] at hpos ⊢
+      rw [SJ.Proofs.LexBh.drop_takeWhile_eq, SJ.Proofs.LexBh.natOfDigits_dropWhile_zero]; omega
+  · have hil : (integer.length == 0) = false := by
+      cases integer with
+      | nil => exact absurd rfl hint
+      | cons a l => simp
+    have hsig : SJ.Proofs.LexBh.sigDigits integer fraction = integer ++ fraction := by
+      unfold SJ.Proofs.LexBh.sigDigits; rw [hil]; rfl
+    rw [hsig] at hz
+    simp only [hil, Bool.false_eq_true, if_false]
+    rw [SJ.Proofs.LexBh.parseMantissa_eq c hmax integer fraction hz]
+    split <;> omega
+
 end SJ.Proofs.LexMath
